@@ -189,6 +189,12 @@ def _chunk(args):
                     exp = H.reference(H.make_schema(), query, variables, world)
                     if exp[0] == "result":
                         paths = [p for p, _a, _b, _c in exp[3].visited]
+                        # a list value that fails while it is consumed abandons the items already started: what happens to the hooks of fields below
+                        # them (in flight on a deferring runtime) is not specified - only the failing field itself and everything outside it is judged
+                        failing = [k for k, v in world.items() if v[0] == "gen-error"]
+                        paths = [p for p in paths if not any(len(p) > len(f) and p[:len(f)] == f for f in failing)]
+                        if failing:
+                            log = [ev for ev in log if not (ev[0] in ("field", "mw", "resolver") and any(len(ev[1]) > len(f) and tuple(ev[1][:len(f)]) == f for f in failing))]
                         for msg in check_field_trace(log, None, tags, mw_tags, paths):
                             fails.append(("hooks:field-exactly-once", w, msg))
                 prefix = H.next_prefix(sched) if cfg in ("executor-threadpool", "executor-asyncio") else None
